@@ -2,8 +2,12 @@ from props import prop
 
 prop("C03", "fault_enumeration",
      "after an honest handshake (discoverable or hidden; optionally a second session of another client) 1-3 concurrent writers per "
-     "end issue 0-6 Write/WriteMsg calls with sizes from {24, 25, 100, 1000, Max-1, Max, Max+1, 2Max, 2Max+1, 3.5Max} and random "
-     "(Max = MaxPlaintextSize); every payload embeds direction, writer, sequence and keyed bytes. The adversary script (rapid, "
+     "end (Client and server Handle alike) issue 0-6 Write/WriteMsg calls - concurrent writers use Write too, single- and multi-packet; their calls start "
+     "together, back to back or 1 ms apart, and a drawn yield schedule pauses the k-th arrival at the entry of the packet send path for 0-2500 us so "
+     "that overlapping calls are common - with sizes from {0, 1, 23, 24, 25, 100, 1000, Max-1, Max, Max+1, 2Max, 2Max+1, 3.5Max} and random "
+     "(Max = MaxPlaintextSize); every payload of 24 bytes or more embeds direction, writer, sequence and keyed bytes; the EMPTY message and messages "
+     "shorter than 24 bytes carry no identification and are judged by multiset count per reader (an empty WriteMsg is a message: delivered once, "
+     "never more often; a zero-length Write must return (0, nil) and MAY produce one empty message); long streams optionally make every 2nd/4th/7th message empty. The adversary script (rapid, "
      "1-10 actions addressed to the n-th transport datagram of a direction) can drop, duplicate x1-3, hold back and release later, "
      "deliver a bit-flipped copy before the original (flip in type / reserved / session id / counter / body / tag region), flip in "
      "flight, deliver a copy truncated to any length or extended, reflect a copy to its sender, inject a copy into the other "
@@ -11,7 +15,7 @@ prop("C03", "fault_enumeration",
      "the live session id from the peer's or a third address; one case in four runs on a faithful network. Oracle: (1) every message "
      "a reader gets is byte-identical to an outstanding message written to it on that session and direction, each at most once; "
      "(2) afterwards a fresh probe still arrives both ways; (3) when every genuine datagram was delivered at least once (faithful or "
-     "non-destructive script) every accepted write is delivered completely, Write returns (len, nil), WriteMsg refuses oversize "
+     "non-destructive script) every accepted write is delivered completely (multiset of packets-worth of bytes, so packets of concurrent multi-packet Writes may interleave), Write returns (len, nil), WriteMsg refuses oversize "
      "with ErrBufOverflow, and a single writer's order is preserved on a faithful network; (4) no payload marker, server/client name, "
      "static public key or certificate bytes occur in any datagram of the wire log, handshake included. Non-trivial = script with "
      ">=1 action or a write larger than one packet; distinct by case hash.",
